@@ -31,6 +31,9 @@ _INFO = {}
 
 # ------------------------------------------------------------------ pool and operations
 
+CX_ONLY = ['child_attrs(x)', 'child_attrs(n1)', 'child_attrs(n0)', 'child_attrs_all', 'child_attrs_noexc', 'subclass', 'append_field', 'insert_field',
+           'customize(type_name)']
+POOL_SIZE = {'full': 8, 'cx': 2, 'prim': 4}
 CX_OPS = ['customize(min_occurs=1)', 'customize(sub_name)', 'child_attrs(x)', 'child_attrs(n1)', 'child_attrs(n0)', 'child_attrs_all',
           'subclass', 'append_field', 'insert_field']
 
@@ -54,6 +57,8 @@ def fresh_pool(cfg='full'):
     B = ComplexModelMeta('B', (A,), {'__namespace__': 'urn:vf:c15', '_type_info': [('y', Integer)]})
     if cfg == 'cx':
         return [('A', A), ('B', B)]
+    if cfg == 'prim':
+        return [('Unicode', Unicode), ('Integer', Integer), ('Decimal', Decimal), ('ByteArray', ByteArray)]
     return [('Unicode', Unicode), ('Integer', Integer), ('A', A), ('B', B), ('Array(A)', Array(A)), ('Array(Integer)', Array(Integer)),
             ('Decimal', Decimal), ('ByteArray', ByteArray)]
 
@@ -82,6 +87,8 @@ def operations(tier, cfg='full'):
     """[(op id, applicable(model) -> bool, apply(model) -> new model, requested attrs or None)]"""
     if cfg == 'cx':
         return [o for o in operations('thorough') if o['id'] in CX_OPS]
+    if cfg == 'prim':
+        return [o for o in operations('thorough') if o['id'] not in CX_ONLY]
     from spyne.model.complex import Array, Iterable, Mandatory, ComplexModelMeta
     from spyne.model.primitive import Integer, Unicode
     ops = []
@@ -136,7 +143,31 @@ def label_of(m, pool):
     return '%s{%s}' % (n, attr_digest(m))
 
 
+_PASS = {'memo': None}
+
+
+def snapshots(pool):
+    """snapshot of every pooled model in one pass (attribute records of shared types are read once per pass)"""
+    _PASS['memo'] = {}
+    try:
+        return [snapshot(m, pool) for lab, m in pool]
+    finally:
+        _PASS['memo'] = None
+
+
 def attr_items(m):
+    memo = _PASS['memo']
+    if memo is not None:
+        hit = memo.get(id(m))
+        if hit is not None:
+            return hit
+    out = _attr_items(m)
+    if memo is not None:
+        memo[id(m)] = out
+    return out
+
+
+def _attr_items(m):
     out = []
     A = m.Attributes
     for k in sorted(dir(A)):
@@ -249,7 +280,7 @@ def replay_history(history, tier, ops=None, cfg='full'):
 
 def derivation_chain(history, cfg, i):
     """operation ids that produced pool model i from a seed model, outermost last"""
-    n0 = len(fresh_pool(cfg)) if False else (2 if cfg == 'cx' else 8)
+    n0 = POOL_SIZE[cfg]
     parents = {}
     n = n0
     for opid, idx in history:
@@ -322,8 +353,8 @@ def check_evolve(hist, o, idx, pool, cfg, V):
                     V('evolve', 'field-missing-in-subclass', 'after %s on %s the subclass %s has flat fields %s' % (o['id'], pool[idx][0], lab, flat))
 
 
-def canon(pool):
-    snaps = [snapshot(m, pool) for lab, m in pool]
+def canon(pool, snaps=None):
+    snaps = snaps if snaps is not None else snapshots(pool)
     return hashlib.sha1(json.dumps([snaps, alias_partition(pool)], sort_keys=True, default=str).encode()).hexdigest()
 
 
@@ -331,7 +362,7 @@ def canon(pool):
 
 def bounds(tier):
     return {'seed_pool': [l for l, m in fresh_pool()] if False else ['Unicode', 'Integer', 'A', 'B(A)', 'Array(A)', 'Array(Integer)', 'Decimal', 'ByteArray'],
-            'operations': 24 if tier == 'quick' else 27, 'depth': 2 if tier == 'quick' else 3, 'complex_only_pool': {'seed_pool': ['A', 'B(A)'], 'operations': CX_OPS, 'depth': 3 if tier == 'quick' else 4}, 'hash_seeds': ['0', '1', '7', '1234']}
+            'operations': 24 if tier == 'quick' else 27, 'depth': 2, 'primitives_only_pool': None if tier == 'quick' else {'seed_pool': ['Unicode', 'Integer', 'Decimal', 'ByteArray'], 'depth': 3}, 'complex_only_pool': {'seed_pool': ['A', 'B(A)'], 'operations': CX_OPS, 'depth': 3 if tier == 'quick' else 4}, 'hash_seeds': ['0', '1', '7', '1234']}
 
 
 def first_steps(tier, cfg='full'):
@@ -346,10 +377,12 @@ def first_steps(tier, cfg='full'):
 
 
 def shards(tier):
-    depth = 2 if tier == 'quick' else 3
-    out = [{'kind': 'bfs', 'prefix': [fs], 'depth': depth, 'tier': tier} for fs in first_steps(tier)]
-    # complex models only, two levels deeper
-    out += [{'kind': 'bfs', 'prefix': [fs], 'depth': depth + 1, 'tier': tier, 'cfg': 'cx'} for fs in first_steps(tier, 'cx')]
+    """quick: full pool depth 2, complex-only pool depth 3.  thorough: full pool depth 2 with the larger operation set, complex-only
+    pool depth 4, primitives-only pool depth 3 (a full-pool search to depth 3 is ~1.4 million transitions: more than an hour)"""
+    out = [{'kind': 'bfs', 'prefix': [fs], 'depth': 2, 'tier': tier} for fs in first_steps(tier)]
+    out += [{'kind': 'bfs', 'prefix': [fs], 'depth': 3 if tier == 'quick' else 4, 'tier': tier, 'cfg': 'cx'} for fs in first_steps(tier, 'cx')]
+    if tier == 'thorough':
+        out += [{'kind': 'bfs', 'prefix': [fs], 'depth': 3, 'tier': tier, 'cfg': 'prim'} for fs in first_steps(tier, 'prim')]
     for seed in ('1', '7', '1234'):
         out.append({'kind': 'seed', 'seed': seed, 'depth': 2, 'tier': tier})
     return out
@@ -371,7 +404,8 @@ def check_transition(hist, opdesc, idx, before_pool_snap, pool_before_len, pool,
                                   'case': {'history': hist, 'tier': tier, 'cfg': cfg}, 'count': 1})
     if o['kind'] == 'evolve':
         check_evolve(hist, o, idx, pool, cfg, V)
-    after = [snapshot(m, pool) for lab, m in pool]
+    after = snapshots(pool)
+    res.setdefault('_after', {})['snaps'] = [dict(x) for x in after]
     sch_b, sch_a = schema_snaps(hist[:-1], tier, cfg), schema_snaps(hist, tier, cfg)
     for i in range(pool_before_len):
         before_pool_snap[i] = dict(before_pool_snap[i], schema=sch_b.get(i))
@@ -415,7 +449,7 @@ def check_transition(hist, opdesc, idx, before_pool_snap, pool_before_len, pool,
     # verdicts: every primitive of the pool validates the probe values as the reference predicate says for the facets its
     # derivation chain asked for (a verdict may not come from anybody else's constraints, however they are cached)
     from vf.ref import validity
-    n0 = 2 if cfg == 'cx' else 8
+    n0 = POOL_SIZE[cfg]
     for i, (lab, m) in enumerate(pool):
         for pname, probes in PROBES.items():
             if pname == 'Decimal' or not is_prim(m, pname) or (pname == 'Integer' and False):
@@ -528,7 +562,7 @@ def run_shard(shard, only=None):
         o = ops[opid]
         if idx >= len(pool) or not o['ok'](pool[idx][1]):
             continue
-        before = [snapshot(m, pool) for lab, m in pool]
+        before = snapshots(pool)
         n_before = len(pool)
         try:
             new = o['fn'](pool[idx][1])
@@ -544,7 +578,7 @@ def run_shard(shard, only=None):
         res['cov']['histories'] += 1
         if only is None or h2 == only:
             check_transition(h2, o, idx, before, n_before, pool, res, shard, tier, None, cfg)
-        k = canon(pool) + hashlib.sha1(json.dumps(schema_snaps(h2, tier, cfg), sort_keys=True).encode()).hexdigest()[:10]
+        k = canon(pool, (res.pop('_after', None) or {}).get('snaps') if (only is None or h2 == only) else None) + hashlib.sha1(json.dumps(schema_snaps(h2, tier, cfg), sort_keys=True).encode()).hexdigest()[:10]
         if k not in seen:
             seen.add(k)
             res['sets']['canonical_states'].append(k)
@@ -584,7 +618,7 @@ def state_digest(tier, depth):
 
 def canon_stable(pool):
     """canonical form without identity-based parts (ids differ between processes)"""
-    snaps = [snapshot(m, pool) for lab, m in pool]
+    snaps = snapshots(pool)
     return hashlib.sha1(json.dumps(snaps, sort_keys=True, default=str).encode()).hexdigest()
 
 
